@@ -165,3 +165,39 @@ Print Assumptions C02_phyloxml_delivered_wf.
 Theorem C02_nextstrain_delivered_wf : forall c t, ns_to_tree c = inl t -> wf t = true.
 Proof. exact ns_to_tree_wf. Qed.
 Print Assumptions C02_nextstrain_delivered_wf.
+
+(** * totality on every byte string, assembled: whatever the bytes and the buffer size, the
+    multi-Newick reader closes its channel after finitely many records (trees, then possibly one
+    error) and the Nexus parser returns a document or an error; with the Newick parser of C01
+    embedded, which itself never runs out of fuel (C01_parse_raw_total / C02_newick_terminates) *)
+Theorem C02_multi_total_on_bytes :
+  forall (np : string -> utree + string) (bufsz : nat) (s : string),
+    exists l, read_multi np (phys_reads (S (String.length s)) bufsz s) = MDone l.
+Proof. intros np bufsz s. apply read_multi_total. Qed.
+Print Assumptions C02_multi_total_on_bytes.
+
+Theorem C02_nexus_error_or_trees :
+  forall (np : string -> utree + string) (s : string),
+    (exists d, nexus_parse np s = Nexus.POk d) \/ (exists e, nexus_parse np s = Nexus.PErr e).
+Proof.
+  intros np s. destruct (nexus_parse_total np s) as [A B].
+  destruct (nexus_parse np s) as [d|e| |]; [left; eauto|right; eauto|contradiction|contradiction].
+Qed.
+Print Assumptions C02_nexus_error_or_trees.
+
+Theorem C02_readers_total_with_newick :
+  forall (numeric : string -> bool) (parse_num : string -> option Q) (bufsz : nat) (s : string),
+    Newick.parse numeric parse_num s <> Newick.POutOfFuel /\
+    (exists l, read_multi (fun x => match Newick.parse numeric parse_num x with
+                                    | Newick.POk t => inl t | Newick.PErr m => inr m | Newick.POutOfFuel => inr "" end)
+                          (phys_reads (S (String.length s)) bufsz s) = MDone l) /\
+    ((exists d, nexus_parse (fun x => match Newick.parse numeric parse_num x with
+                                      | Newick.POk t => inl t | Newick.PErr m => inr m | Newick.POutOfFuel => inr "" end) s = Nexus.POk d) \/
+     (exists e, nexus_parse (fun x => match Newick.parse numeric parse_num x with
+                                      | Newick.POk t => inl t | Newick.PErr m => inr m | Newick.POutOfFuel => inr "" end) s = Nexus.PErr e)).
+Proof.
+  intros numeric parse_num bufsz s. split; [apply parse_no_fuel|]. split.
+  - apply read_multi_total.
+  - apply C02_nexus_error_or_trees.
+Qed.
+Print Assumptions C02_readers_total_with_newick.
